@@ -796,3 +796,15 @@ package compiler
 //@     invariant done: forall v: int :: 0 <= v && v <= $i ==> def.Enum.Values[v].Type == old(def.Enum.Values[v].Type) && def.Enum.Values[v].Value == old(def.Enum.Values[v].Value) && (old(numericName(def.Enum.Values[v].Name)) ==> def.Enum.Values[v].Name == call("compiler.(*RenameNumericEnumValues).enumMemberNameFromValue", pass, old(def.Enum.Values[v]))) && (!old(numericName(def.Enum.Values[v].Name)) ==> def.Enum.Values[v].Name == old(def.Enum.Values[v].Name))
 //@     invariant todo: forall v: int :: $i < v && v < len(def.Enum.Values) ==> def.Enum.Values[v] == old(def.Enum.Values[v])
 //@     invariant changed: changed == (exists v: int :: 0 <= v && v <= $i && old(numericName(def.Enum.Values[v].Name)))
+//
+// VisitSchema - partial claim (its full contract needs frames for callbacks with unknown effects and stays
+// assumed, see VisitSchemas): the registry of objects created by callbacks is a NEW, EMPTY map whenever a
+// callback can first run for a schema - when OnSchema is entered, and when the entry point type and the
+// first object are visited - so that objects registered while one schema was visited cannot leak into the
+// next one; callbacks and nested visits get this visitor and this schema.
+//@ func (*Visitor).VisitSchema
+//@   property C15 C05 C06
+//@   requires visitor != nil && schema != nil && wf(schema.Objects)
+//@   at-call "compiler.fieldfn:Visitor.OnSchema" registry: $arg0 == visitor && $arg1 == schema && visitor.newObjects != nil && fresh(visitor.newObjects) && len(visitor.newObjects.order) == 0
+//@   at-call "compiler.(*Visitor).VisitType" entrypoint: $arg0 == visitor && $arg1 == schema && $arg2 == old(schema.EntryPointType) && visitor.newObjects != nil && fresh(visitor.newObjects) && len(visitor.newObjects.order) == 0
+//@   at-call "compiler.(*Visitor).VisitObject" object: $arg0 == visitor && $arg1 == schema
